@@ -3,6 +3,7 @@ module verif
 go 1.23.0
 
 require (
+	github.com/davecgh/go-spew v1.1.1
 	github.com/dop251/goja v0.0.0-20250630131328-58d95d85e994
 	github.com/go-sourcemap/sourcemap v2.1.3+incompatible
 	github.com/xjslang/xjs v0.0.0
